@@ -116,7 +116,7 @@ def ev_sig(j):
         return [list(rd.to_digestable()) for rd in sorted(mk_rdata(j["c"], j["t"], segs) for segs in j["rrs"])]
 
     return [{"op": "sig", "t": j["t"], "c": j["c"], "owner": j["owner"], "rrs": j["rrs"], "sg": sg, "mode": j["mode"],
-             "out": outcome(run), "srt": outcome(order)}]
+             "org": j.get("org", []), "out": outcome(run), "srt": outcome(order)}]
 
 
 # ------------------------------------------------------------------ key tag, DS, NSEC3
